@@ -103,9 +103,9 @@ CLAIMS = {
             "note": TIE + "Integer instantiation (truncating division) is not separately modelled. " + FLOATS},
     "C04": {"text": "Theorems (all N>=1 with N+1 <= 2^64-1, any total order) at registry level: the run never panics and output k = Spec.extremum of Spec.window (max_registry_correct, min_registry_correct); underneath, for any counter bound M>N: the monotonic-deque model with the bounded, rebasing counter never fails a checked operation and returns the window maximum / minimum (max_correct, min_correct, runB_correct from any shifted reachable state, through any number of rebases). Correspondence in debug (overflow checks) and release builds including states injected at usize::MAX-j.",
             "note": TIE + "usize is modelled by a parametric bound M; the driver runs M = 2^64-1."},
-    "C05": {"text": "Theorems over commutative rings at registry level: convolution output k = Spec.firAt (conv_registry_correct), delay output k = x[max(k-N,0)] (delay_registry_correct); a FIR reproduces the ramp a+b*m exactly iff sum = 1 and first moment = 0 (convL_ramp) and every regenerated Savitzky-Golay table has sum within 1e-5 of 1 and first moment within 1e-4 of 0 (sg_moments); underneath: stateful tap-ring model = closed form FIR with edge padding (conv_closed_form, taps_invariant, push loop terminates: pushLoop_fill), linearity, shift invariance, constant gain; delay closed form incl. N=0; Savitzky-Golay tables (regenerated from the source on every run) within 5e-6 of the closed-form least-squares end-point coefficients (sg_close, decide +kernel). Correspondence: Convolve/Delay<Q,N> with random kernels, normalisation, guts.",
+    "C05": {"text": "Theorems over commutative rings at registry level: convolution output k = Spec.firAt (conv_registry_correct), delay output k = x[max(k-N,0)] (delay_registry_correct); the filter is linear (conv_registry_linear: run on a*x+b*y = a*run(x)+b*run(y)); the normalising constructor yields unit gain whenever the coefficient sum is non-zero and leaves a zero-sum kernel alone (normalized_sum, normalized_of_sum_zero; over fields), so the filter built from it reproduces constants (conv_registry_normalized_const); a FIR reproduces the ramp a+b*m exactly iff sum = 1 and first moment = 0 (convL_ramp) and every regenerated Savitzky-Golay table has sum within 1e-5 of 1 and first moment within 1e-4 of 0 (sg_moments); underneath: stateful tap-ring model = closed form FIR with edge padding (conv_closed_form, taps_invariant, push loop terminates: pushLoop_fill), linearity, shift invariance, constant gain; delay closed form incl. N=0; Savitzky-Golay tables (regenerated from the source on every run) within 5e-6 of the closed-form least-squares end-point coefficients (sg_close, decide +kernel). Correspondence: Convolve/Delay<Q,N> with random kernels, normalisation, guts.",
             "note": TIE + "Preset tables are tied by the translator gen/extract_tables.py (regex extraction, fails loudly). " + FLOATS},
-    "C06": {"text": "Theorems: one Kalman::process call = one step of the textbook recursion Spec.kalmanTextbook, for EVERY sample type and configuration (kalman_step_textbook, kalman_state: no algebraic law needed); over ordered fields: hull and non-negative covariance for a=c=1,b=0,r>=0,q>0 over whole streams (kalman_hull, kalman_step_hull); plain = zero control (kalman_zero_control). The textbook recursion is an executable specification evaluated against the implementation on every run (exact rationals).",
+    "C06": {"text": "Theorems: one Kalman::process call = one step of the textbook recursion Spec.kalmanTextbook, for EVERY sample type and configuration (kalman_step_textbook, kalman_state: no algebraic law needed); over ordered fields: hull and non-negative covariance for a=c=1,b=0,r>=0,q>0 over whole streams (kalman_hull, kalman_step_hull; at registry level kalman_registry_hull, kalman_registry_cov_nonneg); plain = zero control (kalman_zero_control). The textbook recursion is an executable specification evaluated against the implementation on every run (exact rationals).",
             "note": TIE + FLOATS},
     "C07": {"text": "At registry level (what the driver executes): analyze_registry_correct (the two outputs are the edge-padded convolutions with the two configured kernels, any kernels), synthesize_registry_correct (sum of the two convolutions of the two input streams), daubechies_registry_reconstructs (for EVERY provided table, the registry analysis filter followed by the registry synthesis filter on any finite signal bounded by B reproduces it delayed by N-1 within 1e-8*B). Underneath, theorem db_reconstructs: for EVERY provided order, every input bounded by B and every index n, |Synthesize(Analyze x)[n] - x[n-(N-1)]| <= 1e-8*B in exact arithmetic, with the kernels derived exactly as daubechies.rs derives them from its (regenerated) table — via cascade_kernel (analysis then synthesis = one edge-padded FIR with kernel low'*low + high'*high, any kernels), convL_residual_bound and the table theorem db_residuals. Further, over commutative rings / ordered fields: feeding one edge-padded FIR into another is the edge-padded FIR of the kernel product (convL_polyMul), error bound |convL r x n| <= (sum |r|) * B (convL_bound), delayed unit impulse picks x[n-d] (convL_delta); for each of the ten coefficient tables, REGENERATED from daubechies.rs on every run and processed exactly as the macro does (normalise, reverse, alternate signs): reconstruction residual <= 1e-8, low-pass gain 1, |high-pass gain| <= 1e-8 (db_residuals, db_low_gain, db_high_gain, db_lengths by decide +kernel). Correspondence: f64/f32 presets bit-exact against the model at Lean Float/Float32, cascade outputs against the reconstruction bound.",
             "note": TIE + "Tables are tied by the translator gen/extract_tables.py. " + FLOATS},
